@@ -114,8 +114,10 @@ def eccentricity_derivative(
     dR_dw_1 = -1. * beta_invr * mass_2 * dU_dw_1
 
     # Correct for zero eccentricity
-    de_dt = (np.abs(denom) <= float_eps) * 0. + \
-            (np.abs(denom) > float_eps) * (e_term1 / denom) * (e_term1 * dR_dM - dR_dw_1)
+    # Guard the division itself (not just the product) so that e = 0 gives 0 rather than 0 * inf or a ZeroDivisionError
+    denom_is_okay = np.abs(denom) > float_eps
+    safe_denom = denom + (1. - denom_is_okay)
+    de_dt = denom_is_okay * (e_term1 / safe_denom) * (e_term1 * dR_dM - dR_dw_1)
 
     return de_dt
 
@@ -168,7 +170,9 @@ def semia_eccen_derivatives(
     denom = orbital_motion * semi_major_axis * semi_major_axis * eccentricity
 
     # Correct for zero eccentricity
-    de_dt = (np.abs(denom) <= float_eps) * 0. + \
-            (np.abs(denom) > float_eps) * (e_term1 / denom) * (e_term1 * dR_dM - dR_dw_1)
+    # Guard the division itself (not just the product) so that e = 0 gives 0 rather than 0 * inf or a ZeroDivisionError
+    denom_is_okay = np.abs(denom) > float_eps
+    safe_denom = denom + (1. - denom_is_okay)
+    de_dt = denom_is_okay * (e_term1 / safe_denom) * (e_term1 * dR_dM - dR_dw_1)
 
     return da_dt, de_dt
